@@ -1149,7 +1149,7 @@ fn builtin_join(args: Vec<Rc<Object>>) -> Result<Rc<Object>, String> {
             }
             Ok(Rc::new(Object::Str(s)))
         }
-        _ => Ok(Rc::new(Object::Null)),
+        _ => Err(String::from("first argument should be an array")),
     }
 }
 
